@@ -47,6 +47,9 @@ Utf8OK(s, i) ==
 CharOK(x) == LET hi == x[1] * 256 + x[2] lo == x[3] * 256 + x[4] IN   \* UTF-32BE scalar value
              /\ hi <= 16 /\ ~(hi = 0 /\ lo >= 55296 /\ lo <= 57343)
 
+ZeroWidthCap == 1024
+RECURSIVE ZW(_)
+ZW(c) == IF c.code = 0 THEN ZW(c.inner) ELSE c.code \in {64, 65, 66, 67, 68, 69}   \* zero-width element constructor
 -----------------------------------------------------------------------------
 (* Reference decoder *)
 RECURSIVE DecCtor(_, _), DecData(_, _, _), DecSeq(_, _, _, _, _), DecArr(_, _, _, _, _)
@@ -58,6 +61,8 @@ DecCtor(b, p) ==
        IF ~d.ok THEN Fail ELSE
        LET dv == DecData(d.v, b, p + 1 + d.n) IN
        IF ~dv.ok THEN Fail ELSE
+       \* 1.3: descriptors other than symbol / ulong are reserved: the oracle does not decide them
+       IF dv.v.t \notin {"symbol", "ulong"} THEN Fail ELSE
        LET inner == DecCtor(b, p + 1 + d.n + dv.n) IN
        IF ~inner.ok THEN Fail
        ELSE Ok([code |-> 0, d |-> dv.v, inner |-> inner.v], 1 + d.n + dv.n + inner.n)
@@ -91,6 +96,10 @@ ArrayD(w, b, p) ==
   IF size < w \/ ~Have(b, p + w, size) THEN Fail ELSE
   IF size = w THEN (IF cnt = 0 THEN Ok([t |-> "array", c |-> [code |-> 64], x |-> <<>>], 2 * w) ELSE Fail)  \* lenient: empty array without constructor
   ELSE LET c == DecCtor(b, p + 2 * w) IN IF ~c.ok THEN Fail ELSE
+       \* zero-width elements: count is not bounded by the size; the oracle does not decide arrays of
+       \* more than ZeroWidthCap such elements (no obligation is derived from a Fail)
+       IF ZW(c.v) /\ cnt > ZeroWidthCap THEN Fail ELSE
+       IF ~ZW(c.v) /\ cnt > size THEN Fail ELSE
        LET r == DecArr(c.v, b, p + 2 * w + c.n, cnt, [v |-> <<>>, n |-> 0]) IN
        IF ~r.ok \/ c.n + r.n # size - w THEN Fail
        ELSE Ok([t |-> "array", c |-> c.v, x |-> r.v], w + size)
